@@ -45,6 +45,10 @@ fam({'C06': ('main', 'all'), 'C07': ('main', 'all')},
     driver='pubsub', tv='PubSubTV',
     mc_quick=[('PubSubL2', 'PubSubL2')], mc_thorough=[('PubSubL2', 'PubSubL2'), ('PubSubL2', 'PubSubL2_2s'), ('PubSubL2', 'PubSubL2_3u')],
     n=(80, 300, 2000, 8000))
+fam({'C08': ('main', 'all')},
+    driver='caster', tv='CasterTV',
+    mc_quick=[('PubSubL2', 'PubSubL2')], mc_thorough=[('PubSubL2', 'PubSubL2'), ('PubSubL2', 'PubSubL2_2s'), ('PubSubL2', 'PubSubL2_3u')],
+    n=(80, 300, 2000, 8000))
 
 
 def sig_of(rej):
